@@ -34,6 +34,7 @@ Targets(f, item) ==
     CASE item = "star" -> {g \in Files : Dir[g] = Dir[f]}
       [] item = "starstar" -> {g \in Files : IsPrefix(Dir[f], Dir[g])}
       [] item = "nomatch" -> {}
+      [] item = "absa" -> {"a"}                 \* the root file named by its absolute path
       [] OTHER -> {item} \cap Files
 
 Succ(f) == UNION {Targets(f, it) : it \in inc[f]}
